@@ -36,6 +36,9 @@ ASSUMPTIONS = ['the adversary affects detection power only; every witness distri
 
 
 def gen_case(rng, idx, tier):
+    if rng.random() < 0.1:
+        from rv import evconvex
+        return evconvex.gen(rng, tier)
     return DR.gen(rng, tier)
 
 
@@ -148,6 +151,9 @@ def solve_model(B, rng, ctx):
 
 
 def run_case(spec, ctx):
+    if spec.get('kind') == 'evconvex':
+        from rv import evconvex
+        return evconvex.run(spec, ctx, exact=False)
     rng = np.random.default_rng(spec['spell'])
     try:
         B = DR.build(spec)
